@@ -62,16 +62,18 @@ impl LockfreeArena {
     /// the attempted amount surpasses `max_memory_usage`
     // TODO: Make this return a `Result`
     fn allocate_memory(&self, requested_mem: usize) -> LassoResult<()> {
-        if self.memory_usage.load(Ordering::Relaxed) + requested_mem
-            > self.max_memory_usage.load(Ordering::Relaxed)
-        {
-            Err(LassoError::new(LassoErrorKind::MemoryLimitReached))
-        } else {
-            self.memory_usage
-                .fetch_add(requested_mem, Ordering::Relaxed);
-
-            Ok(())
-        }
+        // The check against the limit and the increment have to be a single atomic
+        // step, otherwise two threads can both pass the check and together exceed the limit
+        self.memory_usage
+            .fetch_update(Ordering::Relaxed, Ordering::Relaxed, |memory_usage| {
+                if memory_usage + requested_mem > self.max_memory_usage.load(Ordering::Relaxed) {
+                    None
+                } else {
+                    Some(memory_usage + requested_mem)
+                }
+            })
+            .map(|_| ())
+            .map_err(|_| LassoError::new(LassoErrorKind::MemoryLimitReached))
     }
 
     /// Store a slice in the Arena, returning `None` if memory is exhausted
